@@ -1297,6 +1297,23 @@ pub fn run_c09(ctx: &mut Ctx, shard: usize, nshards: usize) {
             }
         }
     }
+    // "well-formed packets produced by an independent RFC encoder are always accepted": also the relational
+    // ones, and the ones whose image is larger than 65 535 bytes (fixed-layout kinds only)
+    let mut k = 0usize;
+    let mut extra = crate::mon::writers::relational_cfgs();
+    if ctx.scale >= 0.5 {
+        extra.extend(crate::mon::writers::large_cfgs());
+    }
+    for c in extra {
+        k += 1;
+        if k % nshards != shard || c.is_compound() || (ctx.scale < 0.5 && k % 11 != 0) {
+            continue;
+        }
+        check_c09_cfg(ctx, &c);
+        if let Some(b) = enc::enc(&c) {
+            check_c09_bytes(ctx, &b);
+        }
+    }
 }
 
 pub fn floor_c09(ctx: &Ctx) -> Vec<(String, bool)> {
